@@ -13,7 +13,8 @@ use crate::buffer_queue::BufferQueue;
 use crate::tokenizer::{Tokenizer, TokenizerOpts};
 use crate::tree_builder::{create_element, TreeBuilder, TreeBuilderOpts, TreeSink};
 use crate::{Attribute, QualName};
-use markup5ever::TokenizerResult;
+use markup5ever::interface::ElemName;
+use markup5ever::{expanded_name, local_name, ns, TokenizerResult};
 use std::borrow::Cow;
 
 use crate::tendril;
@@ -67,12 +68,19 @@ where
     Sink: TreeSink,
 {
     let context_elem = create_element(&sink, context_name, context_attrs);
+    // The form element pointer is the nearest form element going up from the context
+    // element, the context element itself included.
+    let form_element = if sink.elem_name(&context_elem).expanded() == expanded_name!(html "form") {
+        Some(context_elem.clone())
+    } else {
+        None
+    };
     parse_fragment_for_element(
         sink,
         opts,
         context_elem,
         context_element_allows_scripting,
-        None,
+        form_element,
     )
 }
 
